@@ -243,6 +243,25 @@ CHECKS['C12'] = dict(
          'sink kinds: the bytes equal dumps(...) encoded as UTF-8.',
     design='4 C12')
 
+CHECKS['C10'] = dict(
+    technique='Hypothesis-generated hierarchies with hooks on arbitrary '
+              'subsets of classes; the recorded hook trace is compared with '
+              'the sequence the rule predicts (reference-model oracle on '
+              'call histories) plus effect-based pipeline-position checks',
+    text='Single-inheritance chains of depth 1-4 with optional unregistered '
+         'topmost ancestor, unregistered mix-in and registered sibling branch, '
+         '_yatiml_recognize/_yatiml_savorize/_yatiml_sweeten defined on '
+         'arbitrary subsets, objects at document, list, dict, attribute (of a '
+         'hooked holder class), Union and Optional positions: savorize calls '
+         'on load and sweeten calls on dump equal the predicted sequence '
+         '(registered chain, base first, once each, cls = defining class, '
+         'parent before child on load / after on dump); recognise hooks only '
+         'ever see their own class; hooks of unregistered classes never run; '
+         'savorize runs after recognition and before construction (word->int '
+         'conversion reaches __init__); SeasoningError surfaces as '
+         'RecognitionError; sweeten sees the node built from the attributes.',
+    design='4 C10')
+
 NOT_YET = 'check not built yet in this session (work in progress)'
 
 
